@@ -530,6 +530,8 @@ class Gen:
             ln = len(cur) - 1
             i = r.choice([1, 1, ln if ln else 1, ln + 1, ln + 3, 8, 256])
             return ['setneg', i, self.val(t[1], 4) if k in ('list', 'vec') else r.choice('01')]
+        if k in ('list', 'vec') and kind(t[1]) == 'Bv' and len(cur) > 1 and r.random() < 0.3:
+            return r.choice([['set', r.randrange(len(cur) - 1), 'x']] + ([['app', 'x']] if k == 'list' else []))
         if k == 'list':
             ln = len(cur) - 1
             c = []
@@ -568,6 +570,7 @@ class Gen:
                     c.append(['set', i, str(1 << (8 * UINT_W[f]))])
                 if kind(f) == 'Bv':
                     c.append(['set', i, 'x' + '00' * (f[1] + 1)])
+                    c.append(['set', i, 'x'])         # the empty byte string is not "no argument": wrong length
                 if kind(f) in ('list',) and f[2] < 40 and is_basic(f[1]):
                     c.append(['set', i, ['s'] + ['0'] * (f[2] + 1)])
                 if kind(f) == 'vec' and is_basic(f[1]):
@@ -605,7 +608,7 @@ class Gen:
         if k == 'bl':
             return self.bits(t[1] + r.choice([1, 2, 9])) if t[1] < 3000 else None
         if k == 'Bv':
-            return self.bytez(t[1] + r.choice([-1, 1, 32]))
+            return self.bytez(r.choice([t[1] - 1, t[1] + 1, t[1] + 32, 0, 0]))      # (also the EMPTY byte string)
         if k == 'Bl':
             return self.bytez(t[1] + r.choice([1, 2, 33])) if t[1] < 3000 else None
         if k == 'vec':
@@ -1025,7 +1028,7 @@ class StoreGen:
                 if not is_basic(vw['t']):
                     self.views.append(dict(t=vw['t'], v=vw['v'], hook=None, kids=False))
                     ops.append(['copy', i])
-            elif c < 0.42 and c >= 0.36:
+            elif 0.36 <= c < 0.39:
                 # view.f_k.value().<op>: a mutation through the value view of a union child, both views being temporaries
                 cu = []
                 for i, vw in enumerate(self.views):
@@ -1047,11 +1050,41 @@ class StoreGen:
                         pv['v'] = pv['v'][:1 + key] + [['u', uview['v'][1], vv2]] + pv['v'][2 + key:]
                         self.propagate(i)
                         ops.append(['mutv', i, key, len(self.views), op])
+            elif 0.39 <= c < 0.44:
+                # view.a.b(.c).<op>: a mutation two or three levels below a held view, every view on the way a temporary;
+                # half of the time the target is obtained with a Path (when no union is on the way)
+                live = [i for i in range(len(self.views)) if not self.stale(i)]
+                if live:
+                    i = r.choice(live)
+                    cur = dict(t=self.views[i]['t'], v=self.views[i]['v'], hook=None, kids=False)
+                    keys, trail = [], []
+                    for _ in range(r.choice([2, 2, 3])):
+                        ck = self.child_keys(cur)
+                        if not ck:
+                            break
+                        key = r.choice(ck)
+                        ct, cv = self.child_tv(cur, key)
+                        trail.append((cur, key))
+                        keys.append(key)
+                        cur = dict(t=ct, v=cv, hook=None, kids=False)
+                    if len(keys) >= 2:
+                        op = self.one_op(cur)
+                        if op is not None and op[0] != 'sets':
+                            nv_ = _apply_val(cur['t'], cur['v'], op)
+                            for par, key in reversed(trail):
+                                if kind(par['t']) == 'union':
+                                    nv_ = ['u', par['v'][1], nv_]
+                                else:
+                                    nv_ = par['v'][:1 + key] + [nv_] + par['v'][2 + key:]
+                            self.views[i]['v'] = nv_
+                            self.propagate(i)
+                            no_union = all(kind(par['t']) != 'union' for par, _ in trail)
+                            ops.append(['mutt', i, len(self.views), 'path' if no_union and r.random() < 0.6 else 'attr', keys, op])
             elif c < 0.36 and cand_child:
                 # a throw-away copy of a held view gets an element replaced by an equal-root SUMMARY of it
                 i, key = r.choice(cand_child)
                 ops.append(['tmpsum', i, key])
-            elif c < 0.45:
+            elif c < 0.53:
                 ops.append(['snap', r.randrange(len(self.views))])
             else:
                 # prefer deeper views: that is where propagation matters
